@@ -6,7 +6,7 @@ import unicodedata
 
 from hypothesis import strategies as st
 
-from vf.core import VERIF_DIR, Fails, Target, attempt, bx, hx, raised
+from vf.core import VERIF_DIR, Fails, Target, attempt, bx, hx, raised, seq
 from vf.ref import mnemonic as ref
 
 PROPERTY = "C10"
@@ -636,8 +636,8 @@ def check_wordlist(case):
     if callable(lw):
         cls.append("load_wordlist")
         lst = attempt(lw)
-        if raised(lst) or tuple(lst) != W:
-            n = None if raised(lst) else len(lst)
+        if raised(lst) or seq(lst) != W:
+            n = len(lst) if isinstance(lst, (list, tuple)) else None
             diffs.append(f"load_wordlist() -> {n} entries, not the pinned 2048 words")
     # (3) the file named by the property's anchor, when present
     path = os.path.join(os.path.dirname(os.path.abspath(lib.__file__)), "english.txt")
